@@ -108,3 +108,33 @@ def invocation_context(repo, f):
     g = m.cfg()
     inner = [n for n in g.nodes if n.kind in ('stmt', 'test') and any(_call_name(c) == p for c in _node_calls(n))]
     return m, inner
+
+
+def attribute_writers(repo, attr):
+    """Every store to `<anything>.attr` (assignment, augmented assignment, delete, setattr with a literal name) in the package:
+    [(function or None, ast node, receiver source, value source or None)]."""
+    out = []
+    for m in repo.modules.values():
+        owner = {}
+        for f in sorted(m.all_functions, key=lambda f: (f.node.end_lineno or f.node.lineno) - f.node.lineno, reverse=True):
+            for n in _ast.walk(f.node):
+                owner[id(n)] = f          # smaller (inner) functions overwrite
+        for n in _ast.walk(m.tree):
+            hit = None
+            if isinstance(n, _ast.Assign):
+                for t in n.targets:
+                    for tt in (t.elts if isinstance(t, (_ast.Tuple, _ast.List)) else [t]):
+                        if isinstance(tt, _ast.Attribute) and tt.attr == attr:
+                            hit = (tt, _src(n.value))
+            elif isinstance(n, (_ast.AugAssign, _ast.AnnAssign)) and isinstance(n.target, _ast.Attribute) and n.target.attr == attr:
+                hit = (n.target, _src(n.value) if n.value is not None else None)
+            elif isinstance(n, _ast.Delete):
+                for tt in n.targets:
+                    if isinstance(tt, _ast.Attribute) and tt.attr == attr:
+                        hit = (tt, None)
+            elif isinstance(n, _ast.Call) and _call_name(n) in ('setattr', 'delattr') and len(n.args) >= 2 and isinstance(n.args[1], _ast.Constant) and n.args[1].value == attr:
+                out.append((owner.get(id(n)), n, _src(n.args[0]), _src(n.args[2]) if len(n.args) > 2 else None, m))
+                continue
+            if hit:
+                out.append((owner.get(id(n)), n, _src(hit[0].value), hit[1], m))
+    return out
